@@ -56,7 +56,7 @@ def check(run: Run) -> None:
             run.violation({"src": c["src"]}, "implementation_hangs")
             continue
         ok = r["impl_ok"] and r.get("is_call", False)
-        traces.append({"id": i, "ok": ok, "func": r.get("func", ""), "wfunc": c["func"], "got": r.get("args", []), "want": c["args"]})
+        traces.append({"id": i, "ok": ok, "func": r.get("func", ""), "wfunc": c["func"], "after": "ok", "got": r.get("args", []), "want": c["args"]})
     verdicts = validate_traces(run, "WordSplit", traces, name="wordsplit")
     for i, (clause, k) in sorted(verdicts.items()):
         if clause != "ok":
